@@ -1,6 +1,6 @@
 (* C12 — graceful shutdown answers every request already received. Statements only.
    Model: Conc/Shutdown.v (labelled transition system of tarsserver.go Shutdown, tcphandler.go Handle / recv /
-   handleConn / CloseIdles / sendCloseMsg and the worker pool as used by them). Parameters, all universally
+   handleConn / CloseIdles / sendCloseMsg and the worker pool as used by them). Inputs of the model, all universally
    quantified: W = maxroutine (0: one goroutine per request; > 0: pool of W workers), cap = capacity of JobQueue,
    early = false for the code after fix 0e6f835 / true for the code before it, and the label sequence ls = any
    number of connections and requests, any handler durations, any interleaving of the accept loop, the receive
@@ -115,6 +115,14 @@ Theorem C12_drained_return_enabled : forall W cap early s, is_down (ph s) = true
              ph s' = SRetDrained.
 Proof. exact ShutdownProofs.drained_return_enabled. Qed.
 
+(* ... and the repaired code can always get there: from every reachable state with Shutdown in progress, for every
+   pool size, some continuation (the pipeline answering what was read, then one tick closing every connection)
+   returns drained — the opposite of C12_progress_refuted_before_fix *)
+Theorem C12_can_always_return_drained : forall W cap, (0 < cap)%N -> forall ls s,
+  run W cap false init ls = Some s -> ph s = SDown ->
+  exists ls' s', run W cap false s ls' = Some s' /\ ph s' = SRetDrained.
+Proof. exact ShutdownProofs.can_always_return_drained. Qed.
+
 Theorem C12_ctx_expiry_enabled : forall W cap early s, is_down (ph s) = true ->
   exists s', step W cap early s LCtxExpire = Some s' /\ ph s' = SRetCtx.
 Proof. exact ShutdownProofs.ctx_expiry_enabled. Qed.
@@ -140,5 +148,6 @@ Print Assumptions C12_drained_return_notified.
 Print Assumptions C12_all_open_notified.
 Print Assumptions C12_drained_return_sound.
 Print Assumptions C12_drained_return_enabled.
+Print Assumptions C12_can_always_return_drained.
 Print Assumptions C12_ctx_expiry_enabled.
 Print Assumptions C12_accepts_sound.
